@@ -209,6 +209,29 @@ Fixpoint sel_re_neg (i : nat) (spans : list (list (nat * nat))) (acc : option (n
   | [] => acc
   | sp :: r => sel_re_neg (S i) r (match rev sp with m :: _ => Some (i, m) | [] => acc end)
   end.
+(* main_text=True (repaired code, fixes/F102): descendant::text()[not (ancestor::office:annotation)] — the text nodes
+   inside an annotation (body, creator, date) are neither counted nor searched; [ad] = depth inside an annotation *)
+Definition is_annot (k : kind) : bool := match k with KAnnot => true | _ => false end.
+Definition ad_open (ad : nat) (k : kind) : nat := match ad with S _ => S ad | O => if is_annot k then 1 else 0 end.
+Fixpoint texts_main_ (ad : nat) (evs : list ev) : list str :=
+  match evs with
+  | [] => []
+  | Open k _ :: r => texts_main_ (ad_open ad k) r
+  | Close :: r => texts_main_ (pred ad) r
+  | Txt s :: r => match ad with O => s :: texts_main_ 0 r | S _ => texts_main_ ad r end
+  end.
+Definition texts_main (evs : list ev) : list str := texts_main_ 0 evs.
+Fixpoint subst_main_ (ad : nat) (i : nat) (f : str -> list ev) (evs : list ev) : list ev :=
+  match evs with
+  | [] => []
+  | Open k a :: r => Open k a :: subst_main_ (ad_open ad k) i f r
+  | Close :: r => Close :: subst_main_ (pred ad) i f r
+  | Txt s :: r => match ad with
+                  | O => match i with O => f s ++ r | S j => Txt s :: subst_main_ 0 j f r end
+                  | S _ => Txt s :: subst_main_ ad i f r
+                  end
+  end.
+Definition subst_main := subst_main_ 0.
 Inductive place :=
 | WPos (p : Z)                                                     (* before = after = None *)
 | WRe (use_end : bool) (p : Z) (spans : list (list (nat * nat))). (* before (start of match) / after (end) *)
@@ -217,15 +240,24 @@ Definition insert_ (elem : list ev) (w : place) (evs : list ev) : option (list e
   match w with
   | WPos p =>
       if (p <? 0)%Z then Some (evs ++ elem)
-      else match sel_pos (Z.to_nat p) 0 0 (texts evs) with
-           | Some (i, q) => Some (subst_nth i (split_ins elem q) evs)
+      else match sel_pos (Z.to_nat p) 0 0 (texts_main evs) with
+           | Some (i, q) => Some (subst_main i (split_ins elem q) evs)
            | None => None
            end
-  | WRe ue p spans =>
+  | WRe ue p spans =>                                  (* [spans]: one list per MAIN text node *)
       match (if (p <? 0)%Z then sel_re_neg 0 spans None else sel_re_pos (Z.to_nat p) 0 0 spans) with
-      | Some (i, (x, y)) => Some (subst_nth i (split_ins elem (if ue then y else x)) evs)
+      | Some (i, (x, y)) => Some (subst_main i (split_ins elem (if ue then y else x)) evs)
       | None => None
       end
+  end.
+(* Element._insert_range (repaired code, fixes/F104): content=regex — ONE search, before any change; the start element
+   goes before the match, the end element after it, both tails through the setter *)
+Definition range_piece (e1 e2 : list ev) (x y : nat) (s : str) : list ev :=
+  otxt (netxt (firstn x s)) ++ e1 ++ [Txt (firstn (y - x) (skipn x s))] ++ e2 ++ [Txt (skipn y s)].
+Definition insert_range (e1 e2 : list ev) (p : Z) (spans : list (list (nat * nat))) (evs : list ev) : option (list ev) :=
+  match (if (p <? 0)%Z then sel_re_neg 0 spans None else sel_re_pos (Z.to_nat p) 0 0 spans) with
+  | Some (i, (x, y)) => Some (subst_main i (range_piece e1 e2 x y) evs)
+  | None => None
   end.
 
 (* ------------------------------------------------------------------ Element.delete(child, keep_tail) *)
@@ -323,7 +355,26 @@ Section Append.
     | ([PN n'], _) => Some n'
     | _ => None
     end.
+  (* strip_tags when the element itself is stripped (e.g. Span.remove_spans()): the pieces — own text, children, own
+     tail — are embedded in a fresh default element (text:p, attributes [a0]) with __append (repaired code, fixes/F105;
+     the pinned code assigned every string piece to new.text, keeping only the last one) *)
+  Definition strip_default (a0 : nat) (sp : kind -> bool -> bool) (pr : kind -> bool) (n : node) : option node :=
+    match strip_ sp pr false n with
+    | ([PN n'], false) => Some n'
+    | (ps, true) => if sp (kind_of n) (match n with Node _ _ s _ _ _ => s end)
+                    then let '(tx, ks) := fold_left append_piece ps (None, []) in Some (Node KP a0 false tx ks None)
+                    else match ps with [PN n'] => Some n' | _ => None end
+    | _ => None
+    end.
 End Append.
+(* PINNED code of that case, kept for the refutation (F105): [new.text = content] for every string piece *)
+Definition strip_default_pinned (a0 : nat) (sp : kind -> bool -> bool) (pr : kind -> bool) (n : node) : option node :=
+  match strip_ collapse sp pr false n with
+  | (ps, true) =>
+      let '(tx, ks) := fold_left (fun st p => match p with PS s => (Some s, snd st) | PN c => (fst st, snd st ++ [c]) end) ps (None, []) in
+      Some (Node KP a0 false tx ks None)
+  | _ => None
+  end.
 Definition strip_tags_ (kinds : list kind) (protect_h : bool) (n : node) : option node :=
   strip_top collapse (fun k _ => existsb (kind_eqb k) kinds) (fun k => protect_h && kind_eqb k KH) n.
 Definition strip_elements_ (n : node) : option node :=
@@ -384,9 +435,32 @@ Section ReplaceTree.
     end.
 End ReplaceTree.
 
-(* ------------------------------------------------------------------ search / text_recursive (Element.search*, match, text_at) *)
-(* str(element) for the classes that occur: Spacer, Tab, LineBreak have their own __str__; Link, Note, Annotation
-   render something else and are excluded by [plain_tree] *)
+(* ------------------------------------------------------------------ search / match / text_at *)
+(* repaired code (fixes/F28, F103): the positions refer to Element._own_text — text nodes in document order,
+   Spacer / Tab / LineBreak decoded through their [text] property, links reduced to their text, notes and
+   annotations skipped, the element's own tail excluded *)
+Fixpoint own_text (n : node) : str :=
+  match n with
+  | Node k _ _ tx ks _ =>
+      (match k with KS c => repeat Sp c | KTab => [Tb] | KLb => [Nl] | _ => oget tx end)
+      ++ flat_map (fun c => (if hidden (kind_of c) then [] else own_text c) ++ oget (tail_of c)) ks
+  end.
+Section Search.
+  Variable find : str -> option (nat * nat).                      (* re.search(pattern, ·) as (start, end) *)
+  Variable findall : str -> list (nat * nat).                     (* re.finditer *)
+  Definition search_ (n : node) : option nat := option_map fst (find (own_text n)).
+  Definition search_first_ (n : node) : option (nat * nat) := find (own_text n).
+  Definition search_all_ (n : node) : list (nat * nat) := findall (own_text n).
+  Definition match_ (n : node) : bool := match search_ n with Some _ => true | None => false end.
+End Search.
+Definition text_at_ (n : node) (start : Z) (e : option Z) : str :=
+  let st := if (start <? 0)%Z then 0%Z else start in
+  match e with
+  | None => sl_from (own_text n) st
+  | Some e => sl (own_text n) st (if (e <? st)%Z then st else e)
+  end.
+(* PINNED code, kept for the refutation (F28): inner_text + tail; str() of Spacer / Tab / LineBreak; Link, Note and
+   Annotation render markup and are excluded by [plain_tree] *)
 Fixpoint inner_text (n : node) : str :=
   match n with
   | Node k _ _ tx ks _ =>
@@ -398,31 +472,17 @@ Fixpoint inner_text (n : node) : str :=
 Definition text_recursive (n : node) : str := inner_text n ++ oget (tail_of n).
 Fixpoint plain_tree (n : node) : bool :=
   match n with Node k _ _ _ ks _ => match k with KLink | KNote | KAnnot => false | _ => forallb plain_tree ks end end.
-Section Search.
-  Variable find : str -> option (nat * nat).                      (* re.search(pattern, ·) as (start, end) *)
-  Variable findall : str -> list (nat * nat).                     (* re.finditer *)
-  Definition search_ (n : node) : option nat := option_map fst (find (text_recursive n)).
-  Definition search_first_ (n : node) : option (nat * nat) := find (text_recursive n).
-  Definition search_all_ (n : node) : list (nat * nat) := findall (text_recursive n).
-  Definition match_ (n : node) : bool := match search_ n with Some _ => true | None => false end.
-End Search.
-Definition text_at_ (n : node) (start : Z) (e : option Z) : str :=
-  let st := if (start <? 0)%Z then 0%Z else start in
-  match e with
-  | None => sl_from (text_recursive n) st
-  | Some e => sl (text_recursive n) st (if (e <? st)%Z then st else e)
-  end.
+Definition search_pinned_ (find : str -> option (nat * nat)) (n : node) : option nat := option_map fst (find (text_recursive n)).
 
 (* ------------------------------------------------------------------ domain of the model *)
-(* white-space elements carry no text of their own (Spacer overrides the text property), annotations no direct text
-   (so descendant::text() and its main_text variant coincide) *)
+(* white-space elements carry no character data of their own (Spacer overrides the text property) *)
 Fixpoint in_domain_ (stack : list kind) (evs : list ev) : bool :=
   match evs with
   | [] => true
   | Open k _ :: r => in_domain_ (k :: stack) r
   | Close :: r => in_domain_ (tl stack) r
   | Txt _ :: r => match stack with
-                  | (KS _ | KTab | KLb | KAnnot) :: _ => false
+                  | (KS _ | KTab | KLb) :: _ => false
                   | _ => in_domain_ stack r
                   end
   end.
@@ -468,10 +528,12 @@ Inductive op :=
 | OWrapOff (k : kind) (a : nat) (off len : Z)                     (* set_span / set_link (offset=, length=) *)
 | OWrapRe (k : kind) (a : nat) (spans : list (list (nat * nat)))  (* set_span / set_link (regex=) *)
 | OInsert (elem : list ev) (w : place)                            (* _insert: bookmark, reference mark, note, annotation *)
+| OInsertRange (e1 e2 : list ev) (p : Z) (spans : list (list (nat * nat)))   (* _insert_range: content=regex *)
 | ODelete (i : nat) (keep : bool)                                 (* delete(child, keep_tail) / child.delete() *)
 | ODelete2 (j i : nat)                                            (* Annotation.delete / ReferenceMarkStart.delete: end mark j first *)
 | OStripTags (kinds : list kind) (protect_h : bool)               (* remove_spans / remove_links / strip_tags *)
 | OStripElems                                                     (* remove_span / remove_link / strip_elements: elements marked [sel] *)
+| OStripDefault (kinds : list kind) (protect_h : bool) (a0 : nat)   (* strip_tags on an element that is itself stripped *)
 | OSame.
 (* [None] = the call raises and nothing is modified *)
 Definition step (o : op) (n : node) : option (list ev) :=
@@ -480,10 +542,12 @@ Definition step (o : op) (n : node) : option (list ev) :=
   | OWrapOff k a off len => if (off <? 0)%Z then None else Some (wrap_off k a off len c)   (* repaired code (fixes/F101): ValueError *)
   | OWrapRe k a spans => Some (wrap_re k a spans c)
   | OInsert e w => insert_ e w c
+  | OInsertRange e1 e2 p spans => insert_range e1 e2 p spans c
   | ODelete i keep => delete_ i keep c
   | ODelete2 j i => match delete_ j true c with Some c' => delete_ i true c' | None => None end
   | OStripTags ks ph => option_map content (strip_tags_ ks ph n)
   | OStripElems => option_map content (strip_elements_ n)
+  | OStripDefault ks ph a0 => option_map content (strip_default collapse a0 (fun k _ => existsb (kind_eqb k) ks) (fun k => ph && kind_eqb k KH) n)
   | OSame => Some c
   end.
 
@@ -520,3 +584,35 @@ Section ReplPinned.
                            (norm_at id (write_at id is_text (fst (subn s)) t), cnt + snd (subn s)))
               (refs n) (n, 0).
 End ReplPinned.
+
+(* ------------------------------------------------------------------ event list -> tree (inverse of [flat]) *)
+(* [parse_kids] reads a sequence of elements (each with its optional tail) and stops at the first event that is not an
+   [Open]; explicit fuel (one unit per element read), [parse] supplies more than enough *)
+Definition take_txt (evs : list ev) : option str * list ev :=
+  match evs with Txt s :: r => (Some s, r) | _ => (None, evs) end.
+Fixpoint parse_kids (fuel : nat) (evs : list ev) : option (list node * list ev) :=
+  match fuel with
+  | O => None
+  | S f =>
+      match evs with
+      | Open k a :: r =>
+          let '(tx, r1) := take_txt r in
+          match parse_kids f r1 with
+          | Some (ks, Close :: r2) =>
+              let '(tl, r3) := take_txt r2 in
+              match parse_kids f r3 with
+              | Some (rest, r4) => Some (Node k a false tx ks tl :: rest, r4)
+              | None => None
+              end
+          | _ => None
+          end
+      | _ => Some ([], evs)
+      end
+  end.
+Definition parse (evs : list ev) : option node :=
+  match parse_kids (S (length evs)) evs with Some ([n], []) => Some n | _ => None end.
+(* the content of an element: optional text, then children *)
+Definition parse_content (evs : list ev) : option (option str * list node) :=
+  let '(tx, r) := take_txt evs in
+  match parse_kids (S (length evs)) r with Some (ks, []) => Some (tx, ks) | _ => None end.
+Fixpoint nosel (n : node) : bool := match n with Node _ _ s _ ks _ => negb s && forallb nosel ks end.
